@@ -114,14 +114,21 @@ def pushable : Loc → Bool
   | .fresh | .held _ | .cb _ | .blocked => true
   | _ => false
 
+def isCb : Loc → Bool
+  | .cb _ => true
+  | _ => false
+
 def stepPush (s : St) (p : PoolId) (u : UnitId) : Option St :=
   -- a resumed unit is pushed while it is still counted as blocked: the decrement follows the push, so at every
   -- instant the unit is accounted for by `size + num_blocked` of its pool
   if pushable (s.loc u) = true ∧ s.st u = .ready ∧ s.pool u = p ∧
       (s.loc u = .blocked → (s.resumed u = true ∧ s.charged u = true ∧ s.chargedPool u = p)) then
+    -- once pushed the unit may be popped, run and be counted again while the decrement that belongs to this push
+    -- (resumer: after the push; `ABT_thread_yield_to` callback: after the re-push of the caller) is still to come:
+    -- the credit becomes a lagging one
     some { s with loc := upd s.loc u (.inPool p), resumed := upd s.resumed u false,
-                  charged := upd s.charged u (if s.loc u = .blocked then false else s.charged u),
-                  lag := upd s.lag u (if s.loc u = .blocked ∧ s.charged u = true then s.lag u + 1 else s.lag u) }
+                  charged := upd s.charged u (if s.loc u = .blocked ∨ isCb (s.loc u) = true then false else s.charged u),
+                  lag := upd s.lag u (if (s.loc u = .blocked ∨ isCb (s.loc u) = true) ∧ s.charged u = true then s.lag u + 1 else s.lag u) }
   else none
 
 def stepPop (s : St) (e : EsId) (p : PoolId) (u : UnitId) : Option St :=
